@@ -53,6 +53,8 @@ def check_case(case, common, out):
         out["notes"][f"refused at construction: {case[3]}"] = f"{type(ex).__name__}: {str(ex)[:80]}"
         return
     replay = {"kind": "call", "module": "vf.props.C04", "func": "replay_case", "args": {"case": list(case)}}
+    if prog.undefined:
+        return
 
     def run(x):
         try:
